@@ -59,8 +59,19 @@ func main() {
 		dump     = flag.Bool("dump", false, "print every obligation")
 		noEvid   = flag.Bool("no-evidence", false, "do not write evidence/violation files (self-test runs)")
 		onlyRule = flag.String("rule", "", "run only this rule id (debugging / self-test)")
+		ssaOf    = flag.String("ssa", "", "print the normalised SSA of this function (short name) and exit (debugging)")
 	)
 	flag.Parse()
+	if *ssaOf != "" {
+		p := loadProg(*repo)
+		fn := p.Fn(*ssaOf)
+		if fn == nil {
+			fmt.Println("no such function")
+			os.Exit(2)
+		}
+		fn.WriteTo(os.Stdout)
+		return
+	}
 	if *list {
 		for _, r := range registry {
 			fmt.Printf("%-10s %-20s min=%d %s\n", r.ID, strings.Join(r.Props, ","), r.Min, r.Doc)
@@ -137,6 +148,12 @@ func main() {
 		p := loadProg(*repo)
 		for _, r := range p.Renamed {
 			fmt.Println("NOTE: role", r)
+		}
+		if len(p.Inlined) > 0 {
+			fmt.Printf("NOTE: %d calls to functions that are new since the pinned tree were replaced by the callee's body before the rules ran\n", len(p.Inlined))
+		}
+		for _, r := range p.NotInlined {
+			fmt.Println("NOTE: new function kept as a call:", r)
 		}
 		known := loadKnown(filepath.Join(*verif, "known_findings.json"))
 		cache := map[string]*RuleResult{}
